@@ -339,6 +339,23 @@ fn check_chain(c: &ChainCase, cx: &mut Cx) -> Res {
         let core = if schema.ends_with("-context") && schema != "standard-no-context" { at_tag.split('+').next().unwrap_or("").to_string() } else { at_tag.clone() };
         ensure!(core == x, "clean checkout at tag {tag}: flow prints {at_tag:?}, expected {x} ({fmt}, {schema})");
     }
+    if c.touch {
+        // a file that only the user's global core.excludesFile ignores is no change either
+        let cfg = crate::gitlab::global_excludes_config();
+        let f = repo.dir.join("editor-backup.globalign");
+        if std::fs::write(&f, "x\n").is_ok() {
+            let o = crate::proc::run(&crate::proc::Spec {
+                args: cli::sv(&["flow", "-C", &repo.path(), "--post-mode", "commit", "--schema", "standard-no-context", "--output-format", "semver"]),
+                cwd: Some("/".into()),
+                env: vec![("GIT_CONFIG_GLOBAL".into(), cfg.to_string_lossy().into_owned())],
+                ..Default::default()
+            });
+            let _ = std::fs::remove_file(&f);
+            ensure!(o.code == Some(0), "flow failed at the tag commit under a global git configuration: {}", o.err_str());
+            ensure!(o.out_str().trim_end() == x, "clean checkout at tag {tag} with an untracked file that the user's global core.excludesFile ignores: flow prints {:?}, expected {x}", o.out_str().trim_end());
+            cx.label("global-excludes-file");
+        }
+    }
     let mut prev: [String; 2] = [x.clone(), x.clone()];
     for (i, merge) in c.steps.iter().enumerate() {
         let op = if *merge {
